@@ -46,8 +46,20 @@ USER_SRC = {
 KNOWN = None
 
 
+# libraries whose first use FAILS and which are then repaired (in a directory private to the one history, see run()):
+#   ulate : does not exist until the event ("create-lib", "ulate") writes it;  upkgf : package whose sub-module upkgf.mod raises until the
+#   event ("fix", "upkgf") creates the file it waits for.  A failed construction must leave nothing behind that changes a later one.
+FLAKY_SRC = {
+    "upkgf/__init__.py": "from mpilot.commands import Command\n\nclass Iota(Command):\n    def execute(self, **kw):\n        return 'upkgf.Iota'\n",
+    "upkgf/mod.py": "import os\nif not os.path.exists(os.path.join(os.path.dirname(__file__), 'READY')):\n    raise RuntimeError('upkgf.mod is not ready')\n"
+                    "from mpilot.commands import Command\n\nclass Lam(Command):\n    def execute(self, **kw):\n        return 'upkgf.mod.Lam'\n",
+}
+ULATE_SRC = "from mpilot.commands import Command\n\nclass Kappa(Command):\n    def execute(self, **kw):\n        return 'ulate.Kappa'\n"
+FLAKY = {"ulate": ("create-lib", "ulate"), "upkgf": ("fix", "upkgf")}
+
+
 def BOUND(tier):
-    return ("all 1-event histories Program(t), t over all tuples of <=2 of 11 libraries (121); all 2-event histories: first event from 136 events, probe t over tuples of <=2 of 8 libraries + 3 singles (67)"
+    return ("all 1-event histories Program(t), t over all tuples of <=2 of 11 libraries (121); all 2-event histories: first event from 136 events, probe t over tuples of <=2 of 8 libraries + 3 singles (67); targeted histories of <=4 events with a class defined inside a used library, and with a construction that fails on an unimportable library which is then repaired (2 libraries x 5 failing prefixes x 4 probes x 3 shapes)"
             if tier == "quick" else "quick bound + histories of 3 events over a reduced menu (6 libraries, tuples <=2) + tuples of 3 user libraries")
 
 
@@ -71,6 +83,13 @@ def reference(t, hist=()):
     inside a library module by 'define-in' events), never on earlier Program constructions or imports"""
     found = {}
     dynamic = [(ev[1], ev[2]) for ev in hist if ev[0] == "define-in"]
+    for lib, repair in FLAKY.items():
+        if lib in t and repair not in hist:
+            return ("raised",)  # the library cannot be imported (yet): the construction fails, whatever else is asked for
+    if "ulate" in t:
+        dynamic.append(("ulate", "Kappa"))
+    if "upkgf" in t:
+        dynamic += [("upkgf", "Iota"), ("upkgf.mod", "Lam")]
     for module, name in list(_known()) + dynamic:
         if any(module == lib or module.startswith(lib + ".") for lib in t):
             found.setdefault(name, set()).add(module)
@@ -140,6 +159,16 @@ def cases(tier):
                     h = ([first] if first else []) + [("define-in", L, name)]
                     yield (h, ("program", t))
                     yield (h + [("program", (L,))], ("program", t))
+    # depth <=4, targeted: a construction FAILS because a library cannot be imported, the cause is repaired, programs are constructed again
+    for lib, repair in FLAKY.items():
+        yield ([], ("program", (lib,)))
+        yield ([repair], ("program", (lib,)))
+        for first in [[("program", (lib,))], [("program", (lib, "ulib"))], [("program", ("ulib", lib))], [("program", (lib,)), ("program", (lib,))],
+                      [("program", ("ulib",)), ("program", (lib,))]]:
+            for t in [(lib,), (lib, "ulib"), ("ulib", lib), ("ulib",)]:
+                yield (first + [repair], ("program", t))
+                yield (first + [repair, ("program", (lib,))], ("program", t))
+                yield (first, ("program", t))
     if tier == "thorough":
         small = [E + ".basic", E + ".csv", "ulib", "ulib_extra", "ulib2", "upkg"]
         evs = _events(small, 1) + [("program", t) for t in itertools.permutations(small, 2) if t[0].startswith("u") or t[1].startswith("u")]
@@ -173,6 +202,17 @@ def _do(ev):
     if kind == "import":
         __import__(ev[1])
         return None
+    if kind == "create-lib":
+        import importlib
+
+        with open(os.path.join(_PRIV[0], ev[1] + ".py"), "w") as f:
+            f.write(ULATE_SRC)
+        importlib.invalidate_caches()
+        return None
+    if kind == "fix":
+        with open(os.path.join(_PRIV[0], ev[1], "READY"), "w") as f:
+            f.write("")
+        return None
     if kind == "define-in":
         from mpilot.commands import Command
 
@@ -202,15 +242,19 @@ def _do(ev):
 
 
 _KEEP = []
+_PRIV = [None]
 
 
-def _in_child(hist, last):
+def _in_child(hist, last, priv=None):
     r, w = os.pipe()
     pid = os.fork()
     if pid == 0:
         try:
             os.close(r)
             try:
+                if priv:
+                    _PRIV[0] = priv
+                    sys.path.insert(0, priv)
                 for ev in hist:
                     _do(ev)
                 out = _do(last)
@@ -234,12 +278,31 @@ def run(case):
     hist, last = case
     hist = [tuple(tuple(x) if isinstance(x, (list, tuple)) else x for x in _e) for _e in hist]
     last = (last[0], tuple(last[1]))
-    got = _in_child(hist, last)
+    priv = None
+    if any(lib in ev[1] for ev in hist + [last] if ev[0] == "program" for lib in FLAKY) or any(ev in hist for ev in FLAKY.values()):
+        priv = snapshot.scratch_dir("c19p_")  # private to this history: the events write into it
+        for rel, src in FLAKY_SRC.items():
+            os.makedirs(os.path.dirname(os.path.join(priv, rel)), exist_ok=True)
+            with open(os.path.join(priv, rel), "w") as f:
+                f.write(src)
+    try:
+        got = _in_child(hist, last, priv)
+    finally:
+        if priv:
+            import shutil
+
+            shutil.rmtree(priv, ignore_errors=True)
     viols = []
     ref = reference(last[1], hist)
     tag = {"history": [list(map(str, e)) for e in hist], "probe": list(last[1])}
     kind = "from-empty-history" if not hist else "after-history"
-    if got[0] in ("child-error", "child-died", "raised"):
+    if got[0] == "raised" and ref[0] == "raised":
+        oc = "raised-as-expected"
+        got = ("raised", ())
+    elif ref[0] == "raised":
+        viols.append(V("C19:lookup:unimportable-library-accepted", "Program(%r) after %r was constructed although a library cannot be imported" % (last[1], hist), **tag))
+        oc = "differs"
+    elif got[0] in ("child-error", "child-died", "raised"):
         viols.append(V("C19:lookup:raised:%s" % (got[1] if len(got) > 1 else "died"), "Program(%r) after %r failed with %r" % (last[1], hist, got), **tag))
         oc = "raised"
     elif got != ref:
